@@ -2,6 +2,7 @@ package j5schema
 
 import (
 	"fmt"
+	"sync"
 
 	"github.com/pentops/j5/gen/j5/ext/v1/ext_j5pb"
 	"google.golang.org/protobuf/proto"
@@ -9,7 +10,10 @@ import (
 )
 
 // SchemaCache acts like PackageSet, but builds schemas on demand from reflection.
+// It is safe for concurrent use: building a schema registers placeholders
+// which are only linked at the end, so the whole build holds the lock.
 type SchemaCache struct {
+	mu       sync.Mutex
 	packages map[string]*Package
 }
 
@@ -21,6 +25,9 @@ func NewSchemaCache() *SchemaCache {
 
 // Schema returns the J5 schema for the given message descriptor.
 func (sc *SchemaCache) Schema(src protoreflect.MessageDescriptor) (RootSchema, error) {
+	sc.mu.Lock()
+	defer sc.mu.Unlock()
+
 	packageName, nameInPackage := splitDescriptorName(src)
 	schemaPackage := sc.referencePackage(packageName)
 	if built, ok := schemaPackage.Schemas[nameInPackage]; ok {
